@@ -118,8 +118,10 @@ def run(tier):
     for k in by:            # deterministic order whatever the TLC workers did
         by[k].sort(key=lambda v: json.dumps(v, sort_keys=True))
     grid = collections.defaultdict(set)        # shape parameters examined per structure
+    ob_of = {}                                 # obligation of (structure, parameter, dimension), computed by TLC
     for p in by["psd"]:
         grid[p["s"]].add(tuple(p["p"]))
+        ob_of[(p["s"], tuple(p["p"]), p["d"])] = p["ob"]
 
     # ------------------------------------------------------------------ 2. the offer table of the real code
     offin = os.path.join(w, "offer_in.json")
@@ -206,7 +208,7 @@ def run(tier):
     eq_dims = collections.defaultdict(set)
     for n, q in enumerate(by["eq"]):
         structs = set(f["s"] for t in q["t"] for f in t["f"])
-        ds = set.intersection(*[set(dims_of(s)) for s in structs])
+        ds = set.intersection(*[set(dims_of(s)) for s in structs]) & set(range(1, q["mxd"] + 1))
         for d in sorted(ds):
             direction = (n + d) % (d + 1 if d >= 2 else d)      # an axis, or the 3-4-5 direction
             ids = [[ev(f["s"], f["p"], d, q["unit"], q["a"], f["x"], direction) for f in t["f"]] for t in q["t"]]
@@ -295,7 +297,8 @@ def run(tier):
             angles = [angles[0], 0.0]
         den = float(g["den"])
         r2 = [sum((u / den / rk) ** 2 for u, rk in zip(h["u"], ranges)) for h in g["hs"]]
-        sp = [[s, qf(p), p[0], p[1]] for s in rn if d in dims_of(s) and cat[s]["rng"] != 0 for p in sorted(grid[s])]
+        sp = [[s, qf(p), p[0], p[1]] for s in rn if d in dims_of(s) and cat[s]["rng"] != 0 for p in sorted(grid[s])
+              if ob_of[(s, p, d)] in ("psd", "cpsd")]
         geoin.append({"gid": gid, "d": d, "ranges": ranges, "angles": angles if d > 1 else [0.0],
                       "R": [[x / den for x in row] for row in g["R"]["n"]], "hs": [h["h"] for h in g["hs"]], "r2": r2,
                       "cmp": [h["cmp"] for h in g["hs"]], "sp": sp})
@@ -370,6 +373,7 @@ def run(tier):
     cls_count = collections.Counter()
     worst = {}                                     # most negative normalised eigenvalue per (structure, param, d, obligation)
     largest_n = 0
+    refused = 0
     inconclusive = []
     for q in plans:
         o = pmap.get(q["id"])
@@ -382,6 +386,9 @@ def run(tier):
         desc = {"plan": {k: v for k, v in q.items() if k not in ("id",)}, "points": psets[q["ps"]]["pts"] if len(psets[q["ps"]]["pts"]) <= 64 else "point set %s of MC_CovStructures" % q["ps"],
                 "how": "Model::createFromParam(type, range, 1, param[, ranges, angles]); K = Model::evalCovMatrix(db, db); eigenvalues of (K + K^T)/2"
                        + ("" if q["ord"] < 0 else " projected on the complement of the monomials of degree <= %d" % q["ord"])}
+        if "exception" in o and q["ob"] in ("invalid", "unclaimed"):
+            refused += 1                           # the library refuses to build what the catalogue does not claim valid: fine
+            continue
         if "exception" in o or o.get("finite") == 0:
             ck.disagree(dict(rec0, kind="exception" if "exception" in o else "not-finite", mode="psd"), dict(desc, result=o))
             continue
@@ -487,6 +494,7 @@ def run(tier):
     ck.cov["worst_digits_among_accepted"] = worst_digits
     ck.cov["psd_runs"] = len(pmap)
     ck.cov["psd_largest_matrix"] = largest_n
+    ck.cov["psd_plans_refused_by_the_library_where_not_claimed_valid"] = refused
     ck.cov["psd_classes"] = {"%s:%d" % k: v for k, v in sorted(cls_count.items())}
     ck.cov["psd_inconclusive"] = inconclusive[:40]
     ck.cov["psd_most_negative_by_obligation"] = {
